@@ -17,22 +17,30 @@ type Locker = sync.Locker
 
 // Mutex replaces sync.Mutex.
 type Mutex struct {
-	real sync.Mutex
-	held atomic.Int32
+	real  sync.Mutex
+	held  atomic.Int32
+	owner *simrt.Task
 }
 
 // SimLabel describes the mutex in stuck-task reports.
-func (m *Mutex) SimLabel() string { return "mutex" }
+func (m *Mutex) SimLabel() string {
+	if o := m.owner; o != nil && m.held.Load() != 0 {
+		return "mutex held by " + o.String()
+	}
+	return "mutex"
+}
 
 func (m *Mutex) free(time.Time) (bool, time.Time) { return m.held.Load() == 0, time.Time{} }
 
 // Lock locks m.
 func (m *Mutex) Lock() {
-	if !simrt.Point(simrt.KLock, m, m.free) {
+	t := simrt.PointT(simrt.KLock, m, m.free)
+	if t == nil {
 		m.real.Lock()
 		m.held.Store(1)
 		return
 	}
+	m.owner = t
 	m.held.Store(1)
 	simrt.RaceAcquire(unsafe.Pointer(m))
 }
